@@ -146,10 +146,10 @@ static std::string run_history(const Args& a, long i) {
     const int max_faces = (int)a.geti("max_faces", 640);
     // ---- start mesh and edge-length band ---------------------------------------------------------
     gen::TriMesh m; std::shared_ptr<epithelial_cell> c; auto ct = gen::default_cell_type(4, 0);
-    double scale = 1, lmin = 0, lmax = 0, ratio = 3; bool have = false, lens = false, fan = false, tiny = false;
+    double scale = 1, lmin = 0, lmax = 0, ratio = 3; bool have = false, lens = false, fan = false, tiny = false, strip = false;
     const bool big = a.geti("big", 0) != 0;   // one large mesh (node and face ids beyond 2^15 / 2^16): rejected construction is a violation here
     for (int attempt = 0; attempt < 30 && !have; attempt++) {
-        if (big) { lens = fan = tiny = false; m = gen::icosphere(6); gen::jitter(m, g, 0.05); m.name = "big_ico"; gen::rotate(m, gen::rot_random(g));
+        if (big) { lens = fan = tiny = strip = false; m = gen::icosphere(6); gen::jitter(m, g, 0.05); m.name = "big_ico"; gen::rotate(m, gen::rot_random(g));
             try { c = gen::make_cell<epithelial_cell>(m, 0, ct); } catch (const std::exception& e) { cs.viol("c01.valid_mesh_rejected:big", std::string("a valid closed sphere of 40962 nodes was rejected at construction: ") + e.what()); return cs.line(); }
             double me = gen::mean_edge(m); lmin = me * g.uni(0.45, 0.6); lmax = 3 * lmin; ratio = 3; have = true; break; }
         if (g.coin(0.06)) {
@@ -157,8 +157,12 @@ static std::string run_history(const Args& a, long i) {
             // (3-cycles A-C-D and B-C-D are not faces), A and B have four faces each: the configuration in which an edge swap must be refused
             double w = g.uni(0.05, 0.15), dz = g.uni(0.02, 0.08), cap = g.uni(0.4, 0.8), cx = g.uni(0.3, 0.7);
             m = gen::TriMesh(); m.name = "lens6"; m.P = {{-1, 0, 0}, {1, 0, 0}, {0, w, -dz}, {0, -w, -dz}, {-cx, 0, -cap}, {cx, 0, -cap}};
-            m.T = {{0, 1, 2}, {0, 3, 1}, {0, 2, 4}, {2, 3, 4}, {3, 0, 4}, {1, 5, 2}, {2, 5, 3}, {3, 5, 1}}; lens = true; fan = false; tiny = false;
-        } else if (g.coin(0.05)) { lens = false; fan = false; tiny = true;
+            m.T = {{0, 1, 2}, {0, 3, 1}, {0, 2, 4}, {2, 3, 4}, {3, 0, 4}, {1, 5, 2}, {2, 5, 3}, {3, 5, 1}}; lens = true; fan = false; tiny = false; strip = false;
+        } else if (g.coin(0.04)) { lens = false; fan = false; tiny = false; strip = true;
+            // 'strip': a long thin box (aspect 12-40, two triangles per side): both diagonals of every long side give needle triangles, so the
+            // sliver removal swaps back and forth if nothing bounds it; every edge is inside the band, only the swap rule acts
+            m = gen::box(1, g.uni(6, 20), 0.5, g.uni(0.4, 0.6)); m.name = "strip";
+        } else if (g.coin(0.05)) { lens = false; fan = false; tiny = true; strip = false;
             // 'tiny': the smallest closed surfaces (tetrahedron; bipyramids over a triangle, square or pentagon), distorted so that one or two edges
             // fall below l_min: whatever the pass decides, at least four triangles must remain (an edge of a tetrahedron cannot be collapsed)
             const int k = g.range(2, 5); m = gen::TriMesh();
@@ -167,7 +171,7 @@ static std::string run_history(const Args& a, long i) {
                 for (int q = 0; q < k; q++) { unsigned r0 = (unsigned)q, r1 = (unsigned)((q + 1) % k); m.T.push_back({(unsigned)k, r0, r1}); m.T.push_back({(unsigned)k + 1, r1, r0}); } }
             // pull one node towards a neighbour: a short edge
             { auto t = m.T[(size_t)(g.u64() % m.T.size())]; unsigned u = t[0], w = t[1]; double f = g.uni(0.75, 0.95); for (int d = 0; d < 3; d++) m.P[u][d] = m.P[u][d] * (1 - f) + m.P[w][d] * f; }
-        } else if (g.coin(0.06)) { lens = false; fan = true; tiny = false;
+        } else if (g.coin(0.06)) { lens = false; fan = true; tiny = false; strip = false;
             // 'fan': a bipyramid over a ring of N >= 17 nodes (both poles have valence N, as the poles of a latitude-longitude sphere) with a few
             // valence-3 nodes inserted into triangles next to a pole: collapsing the pole edge that faces such a node must be refused
             // (the end nodes share three neighbours), whatever the valence of the pole
@@ -178,7 +182,7 @@ static std::string run_history(const Args& a, long i) {
             const int ins = g.range(1, 4);
             for (int k = 0; k < ins; k++) { size_t ti = (size_t)(g.u64() % m.T.size()); auto t = m.T[ti]; std::array<double, 3> x = {0, 0, 0}; for (unsigned v : t) for (int d = 0; d < 3; d++) x[d] += m.P[v][d] / 3;
                 for (int d = 0; d < 3; d++) x[d] *= 1.02; unsigned X = (unsigned)m.P.size(); m.P.push_back(x); m.T[ti] = {t[0], t[1], X}; m.T.push_back({t[1], t[2], X}); m.T.push_back({t[2], t[0], X}); }
-        } else { lens = false; fan = false; tiny = false;
+        } else { lens = false; fan = false; tiny = false; strip = false;
         m = gen::random_shape(g, std::max(20, max_faces / 2));
         if (g.coin(0.5)) gen::jitter(m, g, 0.05);
         }
@@ -203,12 +207,12 @@ static std::string run_history(const Args& a, long i) {
         if (tiny) {   // the shortest edge (and nothing else) is below the band
             double emin = 1e300, e2 = 1e300, emax = 0; for (auto& t : T) { V3 q[3] = {P[t.a], P[t.b], P[t.c]}; for (int k = 0; k < 3; k++) { double l = (double)(q[k] - q[(k + 1) % 3]).norm(); if (l < emin * (1 - 1e-9)) { e2 = emin; emin = l; } else if (l > emin * (1 + 1e-9) && l < e2) e2 = l; emax = std::max(emax, l); } }
             lmin = std::min(1.3 * emin, 0.5 * (emin + e2)); lmax = 2.0 * emax; ratio = lmax / lmin; have = true; }
-        else if (lens || fan) {   // focused probe: every edge inside the band (the thin body must not be remeshed away), only the swap rule is exercised
+        else if (lens || fan || strip) {   // focused probe: every edge inside the band (the thin body must not be remeshed away), only the swap rule is exercised
             double emin = 1e300, emax = 0; for (auto& t : T) { V3 q[3] = {P[t.a], P[t.b], P[t.c]}; for (int k = 0; k < 3; k++) { double l = (double)(q[k] - q[(k + 1) % 3]).norm(); emin = std::min(emin, l); emax = std::max(emax, l); } }
             lmin = 0.5 * emin; lmax = 2.0 * emax; ratio = lmax / lmin; have = true; }
     }
     if (!have) { cs.v = "skip"; cs.msg = "no shape within the face budget"; return cs.line(); }
-    bool swaps = g.coin(0.6) || lens;
+    bool swaps = g.coin(0.6) || lens || strip;
     local_mesh_refiner lmr(lmin, lmax, swaps);
     // random labels and momenta
     for (face& f : cell_tester::faces(*c)) if (f.is_used()) f.set_face_type_id((unsigned short)g.range(0, 3));
@@ -221,7 +225,7 @@ static std::string run_history(const Args& a, long i) {
     if (a.geti("force_sample", 0) > 0) mon.sample_every = (int)a.geti("force_sample", 0);
     mon.regimeA = tiny ? true : g.coin(0.5);
     g_mon = &mon; verif::get().remesh_event = sink;
-    const int npass = big ? 2 : tiny ? g.range(2, 4) : (lens || fan) ? g.range(1, 3) : g.range(5, (int)a.geti("max_passes", 25));
+    const int npass = big ? 2 : tiny ? g.range(2, 4) : (lens || fan || strip) ? g.range(1, 3) : g.range(5, (int)a.geti("max_passes", 25));
     double D[3] = {1, 1, 1}; gen::Rot frame = gen::rot_random(g); double twist_state = 0;
     long passes_done = 0, repeated_conforming = 0, conforming_checked = 0, rebases = 0, direct_ops = 0; bool threw = false; std::string throw_what;
     long faces_max = 0;
@@ -231,13 +235,13 @@ static std::string run_history(const Args& a, long i) {
         // ---- (a) deformation ----------------------------------------------------------------------
         {
             std::vector<V3> Q; std::vector<orc::Tri> TT; gen::extract(*c, Q, TT); orc::Geo gg = orc::geometry(Q, TT); V3 ctr = gg.centroid;
-            double Dn[3]; for (int d = 0; d < 3; d++) Dn[d] = (g.coin(0.3) || lens || fan || tiny) ? D[d] : g.uni(0.7, 1.5);
-            double tw = 0; if (g.coin(0.25) && !lens && !fan && !tiny) { tw = (twist_state == 0 ? g.uni(-0.35, 0.35) : -twist_state); }
+            double Dn[3]; for (int d = 0; d < 3; d++) Dn[d] = (g.coin(0.3) || lens || fan || tiny || strip) ? D[d] : g.uni(0.7, 1.5);
+            double tw = 0; if (g.coin(0.25) && !lens && !fan && !tiny && !strip) { tw = (twist_state == 0 ? g.uni(-0.35, 0.35) : -twist_state); }
             gen::Rot rr = (mon.regimeA && g.coin(0.4)) ? gen::rot_random(g) : gen::rot_identity();
             double ext = 0.5 * std::sqrt((double)std::max({(gg.hi[0] - gg.lo[0]) * (gg.hi[0] - gg.lo[0]), (gg.hi[1] - gg.lo[1]) * (gg.hi[1] - gg.lo[1]), (gg.hi[2] - gg.lo[2]) * (gg.hi[2] - gg.lo[2])}));
             // shortest incident edge per node for the noise bound
             std::vector<double> minl(Q.size(), 1e300); for (auto& t : TT) { unsigned v[3] = {t.a, t.b, t.c}; for (int k = 0; k < 3; k++) { double l = (double)(Q[v[k]] - Q[v[(k + 1) % 3]]).norm(); minl[v[k]] = std::min(minl[v[k]], l); minl[v[(k + 1) % 3]] = std::min(minl[v[(k + 1) % 3]], l); } }
-            double noise = (lens || fan || tiny) ? g.uni(0, 0.02) : (g.coin(0.3) ? 0.0 : g.uni(0, 0.2));
+            double noise = (lens || fan || tiny || strip) ? g.uni(0, 0.02) : (g.coin(0.3) ? 0.0 : g.uni(0, 0.2));
             auto& nl = cell_tester::nodes(*c);
             // regime B emulates the product loop: the force phase refreshes the cached normals, then the integrator moves the
             // nodes, then the next refinement pass runs with normals that are one move stale.
@@ -284,7 +288,7 @@ static std::string run_history(const Args& a, long i) {
         // ---- (b) compaction -------------------------------------------------------------------------
         if (g.coin(0.25)) { try { c->rebase(); rebases++; before_tri.clear(); before_used.clear(); } catch (const std::exception& e) { mon.viol("c01.rebase_threw", e.what()); break; } mon.full_check("rebase", true); }
         // ---- (c) burst of direct operations ---------------------------------------------------------
-        if ((g.coin(0.25) || fan) && mon.viol_key.empty() && !lens && !tiny) {
+        if ((g.coin(0.25) || fan) && mon.viol_key.empty() && !lens && !tiny && !strip) {
             int nops = fan ? g.range(1, 6) : g.range(1, 10); edge_set dummy;
             for (int k = 0; k < nops && mon.viol_key.empty(); k++) {
                 const auto& es = cell_tester::edges(*c); if (es.empty()) break;
